@@ -58,6 +58,12 @@ func main() {
 		seed, _ = strconv.Atoi(s)
 	}
 
+	if pv := os.Getenv("GOVC_PERTURB"); pv != "" {
+		// robustness testing: shift the counters behind generated names
+		n, _ := strconv.Atoi(pv)
+		qcounter += n * 7
+		freshCounter += n * 13
+	}
 	db := newSpecDB()
 	files, _ := filepath.Glob(filepath.Join(*repo, "*", "zz_verif_contracts.go"))
 	more, _ := filepath.Glob(filepath.Join(*repo, "*", "*", "zz_verif_contracts.go"))
